@@ -89,7 +89,9 @@ pub fn run_scenario(bench: &mut Bench, sc: &Scenario) -> ScenarioOutcome {
         st.clock.forced_expiry.push((ordinal, j));
     }
     st.max_nodes_after_deadline = 64 * B;
-    st.max_nodes_per_search = 5_000_000;
+    // (a forced-expiry run of an engine that polls rarely needs many nodes to reach read j:
+    // such runs are cut earlier and counted as inconclusive)
+    st.max_nodes_per_search = if sc.forced.is_some() { 1_500_000 } else { 5_000_000 };
     // forced-expiry runs can only expire at a clock read: a search that stops reading the
     // clock is cut here and judged by a witness run with the deadline inside the gap
     st.max_poll_gap = if sc.forced.is_some() { 8 * B } else { u64::MAX };
@@ -237,7 +239,7 @@ pub fn run_scenario(bench: &mut Bench, sc: &Scenario) -> ScenarioOutcome {
         }
         // time bound, only where the overshoot in time is the engine's own
         if sc.stalls.is_empty() && sc.forced.is_none() && !sc.via_uci {
-            let allowed = B * sc.cost_node_ns + 256 * sc.cost_read_ns;
+            let allowed = B * sc.cost_node_ns + 256 * sc.cost_read_ns.max(1) + 8 * B;
             let over = end_ns.saturating_sub(rec.ns_at_deadline);
             if over > allowed {
                 out.violations.push((
